@@ -57,6 +57,7 @@ type GenProfile struct {
 	PostCommit  bool // generate calls on the committed batch and empty batches
 	IterCalls   int  // max calls per iterator session (default 8)
 	IterWrites  bool // interleave writes after iterator creation
+	MergeRaces  bool // generate writes executed from inside Merge's scan loop
 }
 
 // ValueLen draws a value length from the size classes, steering some draws at
@@ -169,6 +170,19 @@ func GenOp(t *rapid.T, r *Runner, pool *KeyPool, p *GenProfile) Op {
 			n = 8
 		}
 		return Op{K: "iter", Iter: GenIterOp(t, r, pool, n, p.IterWrites)}
+	}
+	if kind == "merge" && p.MergeRaces && Pct(t, 55, "races") {
+		op := Op{K: "merge"}
+		n := 1 + U(t, 3, "nraces")
+		for i := 0; i < n; i++ {
+			key := pool.Draw(t, "rkey")
+			w := Op{K: "del", Key: key}
+			if Pct(t, 65, "rput") {
+				w = Op{K: "put", Key: key, VLen: rapid.IntRange(0, 300).Draw(t, "rlen"), VSeed: r.NextSeed()}
+			}
+			op.Race = append(op.Race, RaceOp{At: U(t, 10, "at"), Op: w})
+		}
+		return op
 	}
 	return Op{K: kind}
 }
